@@ -94,6 +94,20 @@ CLAIMED = {
         "note": "Trusted: the slicing models in props/c11.py (from each verb's usage text). decimate -b's treatment of a trailing incomplete group is accepted either way (usage text silent).",
         "design_ref": "DESIGN.md section 4 C11",
     },
+    "C02": {
+        "level": "exploration",
+        "technique": "property-based testing: Hypothesis-generated streams/nested JSON with round-trip and differential (alias vs expansion) oracles; exhaustive enumeration of the keystroke-saver and separator-alias tables",
+        "text": ("(1) Generated flat streams in the intersection of 11 formats' domains: A->B->A byte identity and A->B == A->C->B for random ordered triples "
+                 "(every format as source, target and intermediate). (2) Generated nested JSON (<=4 deep, empty maps/arrays, records whose only collections "
+                 "are empty) -> csv/tsv/dkvp/xtab/pprint -> JSON identity under flatten separators . : ; __, explicit flatten/unflatten verbs == automatic. "
+                 "(3) Exhaustive: every --X2Y flag the binary lists (98) plus -p -T -c -t -j --io -i/-o --asv/--usv/--iasv/--ousv forms == hand-written "
+                 "expansion, byte-for-byte on 3 streams. (4) Exhaustive: all 28 separator aliases (27 passable as argv) == literal bytes as "
+                 "ifs/ofs/ips/ops/irs/ors/fs, 3 regex aliases. (5) Generated .mlrrc files (with/without leading --, trailing comments, blank lines, no final "
+                 "newline; via MLRRC, ~/.mlrrc, ./.mlrrc; later command-line flags override; --norc)."),
+        "note": ("Trusted: expansion table in props/c02.py (written from the documented letter codes). Arrayify-looking maps (keys 1..n) are skipped and counted. "
+                 "[profile] sections and XDG path are not yet covered. Flat-stream keys are generated sorted because of known finding C01 yaml-reader-sorts-keys."),
+        "design_ref": "DESIGN.md section 4 C02",
+    },
 }
 
 NOT_YET = "check not built yet in this session (see DESIGN.md section 8 build order); will be claimed when its sub-checks run"
